@@ -22,7 +22,7 @@ def run(ctx):
     bins = go_build_tests(ctx, [PKG])
     out = {}
     for test, env in (("TestVerifVSwitchSeq", {"VERIF_SCEN": scen, "VERIF_RANDOM": "40" if q else "600"}),
-                      ("TestVerifVSwitchConc", {"VERIF_ROUNDS": "40" if q else "500", "VERIF_CALLERS": "3"})):
+                      ("TestVerifVSwitchConc", {"VERIF_ROUNDS": "300" if q else "1500", "VERIF_CALLERS": "3"})):
         tf = os.path.join(ctx.scratch, test + ".trace.ndjson")
         e = {"VERIF_TRACE": tf}
         e.update(env)
@@ -48,7 +48,7 @@ def run(ctx):
                 clause = "caller_slice_modified"
             elif bad.get("op") == "shared":
                 clause = "caller_slice_modified"
-            add_violation(ctx, clause, dict(mode=name, failing_line=line, event=bad, trace=t[max(0, line - 12):line + 1], reset=t[0]),
+            add_violation(ctx, clause, dict(mode=name, failing_line=line, event=bad, trace=t[max(0, line - 60):line + 1], reset=t[0]),
                           what="%s line %d %s" % (name, line, json.dumps({k: v for k, v in bad.items() if k != 'seq'})))
     def nontrivial(t):
         return any(r.get("ev") in ("block", "tick") or r.get("op") == "block" for r in t) and \
@@ -57,12 +57,13 @@ def run(ctx):
     cov = dict(states=mc.distinct, transitions=mc.generated, traces_validated_against_impl=len(seq) + len(conc),
                evaluations=len(seq) + len(conc), distinct_nontrivial=nt,
                rule="sequential scenarios = TLC simulation of VSwitch_gen.tla + seeded random ones (getone/block/tick/cloud drift) "
-                    "on a real SwitchPool with a fake clock; concurrent rounds = 3 goroutines x 3 calls on a real SwitchPool, "
-                    "linearized by TLC; non-trivial = contains a Block or clock tick and at least one successful selection",
+                    "on a real SwitchPool with a fake clock; concurrent rounds = 3 goroutines x 3 calls on a real SwitchPool (cold rounds with a slow "
+                    "cloud so that callers join lookups in flight), judged by TLC on what each call can have seen (VSwitch_conc.tla); non-trivial = contains a Block or clock tick and at least one successful selection",
                samples=[strip(seq[0])[:6], strip(conc[0])[:8]], getone_calls=sum(1 for t in seq for r in t if r.get("ev") == "getone"),
                concurrent_rounds=len(conc), coverage_zero_actions=mc.coverage_zero, exhaustive=False)
     return finish(ctx, "model_checking", cov, [
         "the VPC API is a fake; the LRU-expire cache of the sequential runs uses a fake clock (1 tick = TTL/2)",
-        "concurrent rounds: static cloud, TTL 1h, so a call's result must be explainable by one atomic GetOne between invoke and return",
+        "concurrent rounds: static cloud, TTL 1h, lookups take 3 ms in cold rounds; Block is atomic, GetOne is not (the property does not ask for it): "
+        "a selection must be explainable by one value per look at a candidate among the values its cache entry had while the call was in progress",
         "'has free addresses' is judged on the selector's cached snapshot (that is what the property's cache-expiry clause implies)",
         "data-race freedom as such is not decided (only observable effects: result, caller slice, panic)"])
